@@ -300,13 +300,11 @@ def canon_cmp(e, unsigned=True):
         op, a, b, pol = "Lt", b, a, False
     elif op == "Ne":
         op, pol = "Eq", False
-    if unsigned and op == "Lt":
-        if a == ("int", 0):                 # 0 < x
-            op, pol = "Eq", not pol
-        elif b == ("int", 1):               # x < 1
-            op, a, b = "Eq", ("int", 0), a
-        elif b == ("int", 0):               # x < 0 : never (unsigned); keep as is
-            pass
+    if op == "Lt" and b[0] == "int" and a[0] != "int":
+        # integer constants go to the left:  x < k  ==  not (k-1 < x)
+        a, b, pol = ("int", b[1] - 1), a, not pol
+    if unsigned and op == "Lt" and a == ("int", 0):     # 0 < x  ==  x != 0
+        op, pol = "Eq", not pol
     if op == "Eq" and repr(b) < repr(a):
         a, b = b, a
     return (op, a, b), pol
